@@ -19,6 +19,11 @@ LENGTHS = {'ean': [7, 8, 9, 11, 12, 13, 14, 15], 'isbn': [8, 9, 10, 11, 12, 13, 
            'casrn': [5, 6, 7, 8, 9, 10, 11], 'bic': [7, 8, 9, 10, 11, 12], 'isrc': [11, 12, 13], 'iban': [4, 5, 15, 16, 18, 22, 24, 28, 34]}
 
 
+def inputs_lookalike():
+    return {'A': '\u0391', 'B': '\u0392', 'E': '\u0395', 'K': '\u212a', 'M': '\u039c', 'O': '\u041e', 'P': '\u0420', 'X': '\u03a7', 'F': '\u03dc',
+            'R': '\u0158', 'S': '\u0405', 'I': '\u0130', 'D': '\u010e', 'N': '\u00d1', 'G': '\u011e', 'U': '\u00dc', 'C': '\u0421', 'T': '\u0422'}
+
+
 def sl(r):
     return {'k': r['k'], 't': r['t'], 'v': r['v']}
 
@@ -31,7 +36,7 @@ def worker(unit, emit):
         f, part, nparts = unit[1], unit[2], unit[3]
         mod = lib.module(FORMATS[f])
         rnd = random.Random('%s/%s/%d' % (p['seed'], f, part))
-        corp = [c for c in lib.corpus(FORMATS[f], mod) if c.isascii()]
+        corp = [c for c in lib.corpus(FORMATS[f], mod) if c.isascii()]   # bases are ASCII; foreign characters are put in by the edits
         bases = lib.pick(corp, p['bases'], rnd)[part::nparts]
         kw = {'check_country': False} if f == 'iban' else {}
 
@@ -61,6 +66,13 @@ def worker(unit, emit):
                     rec(ch + base, 'prepend')
                     j = rnd.randrange(len(base) + 1)
                     rec(base[:j] + ch + base[j:], 'ins hostile@%d' % j)
+                # foreign digits / letters that the clean-up table does not translate: the standards know ASCII only
+                for i, ch in enumerate(base):
+                    if ch.isdigit():
+                        for zero in (0x660, 0x966):
+                            rec(base[:i] + chr(zero + int(ch)) + base[i + 1:], 'foreign digit@%d' % i)
+                    elif ch.isalpha() and ch.upper() in inputs_lookalike():
+                        rec(base[:i] + inputs_lookalike()[ch.upper()] + base[i + 1:], 'foreign letter@%d' % i)
                 rec(base.lower(), 'lower')
                 rec(' ' + base + ' ', 'padded')
                 rec('\t' + base + '\n', 'padded2')
@@ -275,7 +287,7 @@ def main():
     rej = chk.validate('Trace_Bitcoin', bsh, own_clauses={'A1', 'A2'}, heap='3g', label='bitcoin')
     chk.report(rej)
     extra['val'] = extra.get('val', 0) + extra_b.get('bitcoin', 0)
-    chk.assumptions += ['IBAN is compared with check_country=False (the national layer is C09); inputs are ASCII',
+    chk.assumptions += ['IBAN is compared with check_country=False (the national layer is C09); inputs are ASCII plus foreign digits/letters that the clean-up table does not translate',
                         'country code tables of ISIN and ISRC are taken from the repository (given the same registry tables)']
     return chk.finish(samples=first_meta(shards), distinct_nontrivial=extra.get('val', 0) + extra.get('block_payloads', 0),
                       exhaustive=not quick,
